@@ -6,7 +6,7 @@
 From Coq Require Import ZArith List Bool.
 From RP Require Sched.Model Sched.NodeMap Sched.Inv Sched.SchedProofs Sched.RunProofs
                Sched.LiveProofs Sched.CancelProofs Sched.ConsProofs Sched.CancelRunProofs.
-From RP Require Exec.Model Exec.Oracle Exec.Local Exec.Proj Exec.Proofs Exec.CancelProofs Exec.ExamProofs.
+From RP Require Exec.Model Exec.Oracle Exec.Local Exec.Proj Exec.Proofs Exec.CancelProofs Exec.ExamProofs Exec.PollProofs.
 Import ListNotations.
 
 Module SchedSide.
@@ -140,7 +140,7 @@ Proof. vm_compute. split; reflexivity. Qed.
 End SchedSide.
 
 Module ExecSide.
-Import RP.Exec.Model RP.Exec.Oracle RP.Exec.Local RP.Exec.Proj RP.Exec.Proofs RP.Exec.CancelProofs RP.Exec.ExamProofs.
+Import RP.Exec.Model RP.Exec.Oracle RP.Exec.Local RP.Exec.Proj RP.Exec.Proofs RP.Exec.CancelProofs RP.Exec.ExamProofs RP.Exec.PollProofs.
 
 (* a named task that is running: once cancel_task has found its process running
    and taken it over, it is never collected and never failed; at quiescence it
@@ -222,5 +222,23 @@ Theorem C08_named_examined_clause_holds_in_model :
     NoDup (delivered sc) -> run (init sc) sched = (s, tr) -> ok_named_examined sc tr (quiescent s) = true.
 Proof. exact model_named_examined. Qed.
 Print Assumptions C08_named_examined_clause_holds_in_model.
+
+(* "ends as CANCELED unless it had already finished": whenever a thread hands a
+   task on as CANCELED (cancel_task: staged with target CANCELED), the last
+   proc.poll() of that thread on the task -- the poll of that cancel_task
+   invocation -- reported a RUNNING process.  A task whose process had exited
+   before the poll, with whatever exit code (0 included), is never taken over:
+   it is left to the watcher and keeps its own outcome.  For every scenario
+   and every schedule, no fairness needed. *)
+Theorem C08_canceled_only_if_running_when_polled :
+  forall sc sched s tr u,
+    run (init sc) sched = (s, tr) -> ok_polled_from u false false false tr = true.
+Proof. exact canceled_only_if_polled_running. Qed.
+Print Assumptions C08_canceled_only_if_running_when_polled.
+
+Theorem C08_cancel_polled_clause_holds_in_model :
+  forall sc sched s tr, run (init sc) sched = (s, tr) -> ok_cancel_polled (delivered sc) tr = true.
+Proof. exact model_cancel_polled. Qed.
+Print Assumptions C08_cancel_polled_clause_holds_in_model.
 
 End ExecSide.
